@@ -142,7 +142,8 @@ theorem record_step_refines (T : TimeOps τ) (s : MState τ) (hw : MWF s) (op : 
           rw [hn2] at w2 w3
           exact ⟨w3, w2⟩
       · simp only [sabs, hs, ne_eq, hx, not_false_eq_true, if_true]
-        exact ⟨rfl, trivial, ⟨n, hn, hpos, by simp [hs, hlen, hp]⟩⟩
+        refine ⟨?_, ?_, ?_⟩
+        all_goals first | rfl | trivial | exact ⟨n, hn, hpos, by simp [hs, hlen, hp]⟩
     | none =>
       have hr := freshRows_wf n hpos xsh
       have hpw := push_wf' _ hr x inplace
@@ -221,5 +222,131 @@ theorem record_run_refines (T : TimeOps τ) (ops : List (Op τ)) (s : MState τ)
     simp only [run, srun]
     rw [← h1]
     exact ⟨i1, by rw [h2, i2], i3⟩
+
+
+/-! ## The size formula as an invariant of setter sequences -/
+
+/-- A temporal setter that returns (does not raise) leaves the record with exactly
+`max(⌈q⌉ + inclusive, 1)` slots for the dt / duration / inclusive now stored — from ANY state. -/
+theorem setter_establishes_size (T : TimeOps τ) (s : MState τ) (op : Op τ) (hop : op.isSetter = true)
+    (hu : (step T s op).2 = .unit) : SizeOK T (step T s op).1 := by
+  unfold SizeOK
+  cases op with
+  | setDt v =>
+    simp only [step] at hu ⊢
+    by_cases hv : T.pos v = true
+    · simp only [hv, if_true] at hu ⊢
+      obtain ⟨a, b, c, d⟩ := resizeTo_unit _ _ hu
+      rw [a, b, c, d]
+    · simp [hv] at hu
+  | setDur v =>
+    simp only [step] at hu ⊢
+    by_cases hv : T.nonneg v = true
+    · simp only [hv, if_true] at hu ⊢
+      obtain ⟨a, b, c, d⟩ := resizeTo_unit _ _ hu
+      rw [a, b, c, d]
+    · simp [hv] at hu
+  | setIncl b =>
+    simp only [step] at hu ⊢
+    by_cases hv : T.nonneg s.dur = true
+    · simp only [hv, if_true] at hu ⊢
+      obtain ⟨a, b, c, d⟩ := resizeTo_unit _ _ hu
+      rw [a, b, c, d]
+    · simp [hv] at hu
+  | recon dim size => simp [Op.isSetter] at hop
+  | push xsh x b => simp [Op.isSetter] at hop
+  | assign k => simp [Op.isSetter] at hop
+  | initz sh => simp [Op.isSetter] at hop
+
+/-- **Size-formula invariant.**  Along every finite operation sequence (setters, reconstrain,
+pushes, value assignments, initialisations in any order) in which no temporal setter raised,
+`recordsz = max(⌈duration / dt⌉ + inclusive, 1)` holds at the end (`⌈·/·⌉` as computed by `T`). -/
+theorem size_formula_inv (T : TimeOps τ) (ops : List (Op τ)) (s : MState τ) (h0 : SizeOK T s)
+    (hs : settersSucceed T s ops) : SizeOK T (run T s ops).1 := by
+  induction ops generalizing s with
+  | nil => exact h0
+  | cons op ops ih =>
+    obtain ⟨h1, h2⟩ := hs
+    simp only [run]
+    apply ih _ _ h2
+    cases hop : op.isSetter
+    · obtain ⟨a, b, c, d⟩ := nonsetter_keeps T s op hop
+      unfold SizeOK at *
+      rw [a, b, c, d]; exact h0
+    · exact setter_establishes_size T s op hop (h1 hop)
+
+/-- On ignored storage the common tail of the setters cannot raise and leaves storage alone. -/
+theorem resizeTo_ignored (s : MState τ) (n : Nat) (hn : s.cons.lookup 0 = some n)
+    (hign : mShape? s.store = none) (size : Nat) :
+    (resizeToM s size).2 = .unit ∧ (resizeToM s size).1.store = s.store := by
+  unfold resizeToM
+  rw [hn]
+  simp only
+  by_cases he : size = n
+  · simp [he]
+  · simp only [he, if_false]
+    have ha : align0 s = s := by
+      unfold align0
+      cases hs : s.store with
+      | init sh d => obtain ⟨p, rows⟩ := d; rw [hs] at hign; simp [mShape?] at hign
+      | none => rfl
+      | empty => rfl
+      | uninit => rfl
+    rw [ha]
+    unfold shapedReconM
+    rw [hign]
+    have hz : ¬ ((size : Int) < 0) := by omega
+    simp [reconDecide, hn, hz, applyM]
+
+/-- **No failure merely because storage is not initialised** (D7): with `None`, empty or
+uninitialised storage every temporal setter with a valid argument returns, installs the formula's
+size and leaves the (absent) storage alone. -/
+theorem resize_uninitialised_ok (T : TimeOps τ) (s : MState τ) (n : Nat)
+    (hn : s.cons.lookup 0 = some n) (hign : mShape? s.store = none) (op : Op τ)
+    (hvalid : match op with
+      | .setDt v => T.pos v = true
+      | .setDur v => T.nonneg v = true
+      | .setIncl _ => T.nonneg s.dur = true
+      | _ => False) :
+    (step T s op).2 = .unit ∧ SizeOK T (step T s op).1 ∧ (step T s op).1.store = s.store := by
+  cases op with
+  | setDt v =>
+    simp only at hvalid
+    have h := resizeTo_ignored { s with dt := v } n hn hign (recSize T v s.dur s.incl)
+    have hu : (step T s (.setDt v)).2 = .unit := by simp only [step, hvalid, if_true]; exact h.1
+    exact ⟨hu, setter_establishes_size T s _ rfl hu, by simp only [step, hvalid, if_true]; exact h.2⟩
+  | setDur v =>
+    simp only at hvalid
+    have h := resizeTo_ignored { s with dur := v } n hn hign (recSize T s.dt v s.incl)
+    have hu : (step T s (.setDur v)).2 = .unit := by simp only [step, hvalid, if_true]; exact h.1
+    exact ⟨hu, setter_establishes_size T s _ rfl hu, by simp only [step, hvalid, if_true]; exact h.2⟩
+  | setIncl b =>
+    simp only at hvalid
+    have h := resizeTo_ignored { s with incl := b } n hn hign (recSize T s.dt s.dur b)
+    have hu : (step T s (.setIncl b)).2 = .unit := by simp only [step, hvalid, if_true]; exact h.1
+    exact ⟨hu, setter_establishes_size T s _ rfl hu, by simp only [step, hvalid, if_true]; exact h.2⟩
+  | recon dim size => exact hvalid.elim
+  | push xsh x b => exact hvalid.elim
+  | assign k => exact hvalid.elim
+  | initz sh => exact hvalid.elim
+
+/-- Construction yields a well-formed state obeying the size formula. -/
+theorem construct_wf (T : TimeOps τ) (dt dur : τ) (incl strict param : Bool) (user : Cons) (v : InitVal)
+    (s : MState τ) (h : construct T dt dur incl strict param user v = .ok s) :
+    MWF s ∧ SizeOK T s := by
+  unfold construct at h
+  split at h
+  · cases h
+  · split at h
+    · cases h
+    · split at h
+      · cases h
+      · cases h
+        refine ⟨⟨recSize T dt dur incl, lookup_put_self _ _ _, recSize_pos T _ _ _, ?_⟩, lookup_put_self _ _ _⟩
+        cases v with
+        | none => trivial
+        | empty => trivial
+        | uninit => trivial
+        | zeros sh => exact ⟨by simp [freshRows], recSize_pos T _ _ _⟩
 
 end InfernoVerif.Record
